@@ -53,6 +53,42 @@ def _uses(f, v, skip):
     return out
 
 
+def _path_pair(f, start, goal_ev, avoid_evs, pair):
+    """path from just after `start` to goal_ev avoiding avoid_evs that does NOT cross an edge of both sets of `pair` (such a path is infeasible:
+    `parent not in tree` and `child not in tree` cannot both hold where exactly one body is in the tree)"""
+    ea, eb = pair
+    b0, i0 = start
+    for q in f.blocks[b0]["ev"][i0 + 1:]:
+        if q is goal_ev:
+            return [b0]
+        if any(q is a for a in avoid_evs):
+            return None
+    infeas = f.infeasible_edges()
+    seen = set()
+    st = [(s_, (b0, s_) in ea, (b0, s_) in eb, (b0, s_)) for s_ in f.succs(b0) if (b0, s_) not in infeas]
+    while st:
+        b, sa, sb, path = st.pop()
+        if sa and sb:
+            continue
+        if (b, sa, sb) in seen:
+            continue
+        seen.add((b, sa, sb))
+        stop = False
+        for q in f.blocks[b]["ev"]:
+            if q is goal_ev:
+                return list(path)
+            if any(q is a for a in avoid_evs):
+                stop = True
+                break
+        if stop:
+            continue
+        for s_ in f.succs(b):
+            if (b, s_) in infeas:
+                continue
+            st.append((s_, sa or (b, s_) in ea, sb or (b, s_) in eb, path + (s_,)))
+    return None
+
+
 def number(chk, P):
     chk.rule("NUMBER", "a recorded element number is the index of the element appended: read from container.size(), exactly one push_back on that container between the read "
              "and every use, on every path")
@@ -70,15 +106,17 @@ def number(chk, P):
             # tabled infeasible edge: addMobilizerForJoint's `else if (child.isInTree())` is true whenever it is reached (exactly one of the two
             # bodies is in the tree: established at every call site, ELIGIBLE)
             dead = set()
+            pair = None
             if name == "addMobilizerForJoint":
-                tests = [bb for bb, blk in f.blocks.items() if blk.get("term") and isinstance(blk["term"].get("cond"), list) and str(_strip(blk["term"]["cond"])[1] if _strip(blk["term"]["cond"])[:1] == ["call"] else "").endswith("::isInTree")]
-                if len(tests) == 2:
-                    second = min(tests)        # block ids decrease in source order
-                    dead.add((second, f.blocks[second]["succ"][1]))
+                def not_in_tree(fieldname):
+                    neg = lambda c: isinstance(_strip(c), list) and _strip(c)[:1] == ["call"] and str(_strip(c)[1]).endswith("::isInTree") and \
+                        bool(sx_find(expand_locals(f, _strip(c)[2], depth=3), lambda y: y[0] == "mem" and str(y[2]).endswith("::" + fieldname)))
+                    return known_edges(f, lambda c: False, neg)
+                pair = (not_in_tree("parentBodyNum"), not_in_tree("childBodyNum"))
             # (1) a use is never reached from the read without a push
             miss = None
             for ub, ui, u in uses:
-                p = f.path_exists((b, i), lambda q, u=u: q is u, lambda q: any(q is x[2] for x in pushes), avoid_edges=dead, lift=0)
+                p = _path_pair(f, (b, i), u, [x[2] for x in pushes], pair) if pair else f.path_exists((b, i), lambda q, u=u: q is u, lambda q: any(q is x[2] for x in pushes), avoid_edges=dead, lift=0)
                 # a use may precede the push inside one straight-line block: then the push must follow on every path before the number can be observed
                 if p is not None:
                     p2 = f.path_exists((ub, ui), "exit", lambda q: any(q is x[2] for x in pushes), avoid_edges=dead, lift=0)
@@ -123,12 +161,16 @@ def mirror(chk, P):
         r = {"P" if str(y[2]).endswith("::parentBodyNum") else "C" for y in sx_find(chain, lambda y: y[0] == "mem" and str(y[2]).endswith(("::parentBodyNum", "::childBodyNum")))}
         if len(r) == 1:
             role[d["var"]] = next(iter(r))
+    # the two attachment blocks (they construct the Mobilizer) and, for each, the role whose body is known to be in the tree on every path to it
+    def in_tree(role_):
+        pos = lambda c: isinstance(_strip(c), list) and _strip(c)[:1] == ["call"] and str(_strip(c)[1]).endswith("::isInTree") and role.get(var_of(_strip(c)[2])) == role_
+        return known_edges(f, pos, lambda c: False)
     branches = []
     for b, blk in f.blocks.items():
-        t = blk.get("term")
-        c = _strip(t.get("cond")) if t and t.get("cond") is not None else None
-        if isinstance(c, list) and c[:1] == ["call"] and str(c[1]).endswith("::isInTree") and var_of(c[2]) in role:
-            branches.append((b, role[var_of(c[2])], blk["succ"][0]))
+        if any(q["k"] == "call" and q.get("ctor") and "Mobilizer" in str(q.get("fn", "")) for q in blk["ev"]):
+            rs = [r_ for r_ in ("P", "C") if in_tree(r_) and only_via(f, b, in_tree(r_))]
+            if len(rs) == 1:
+                branches.append((None, rs[0], b))
     if not chk.shape(len(branches) == 2 and {r for _, r, _ in branches} == {"P", "C"}, "MIRROR", "addMobilizerForJoint:two-branches", f.loc, "%s" % [(r) for _, r, _ in branches]):
         return
     canon = {}
@@ -286,6 +328,15 @@ def eligible(chk, P):
             chk.judge(ok, "ELIGIBLE", fn_ + ":candidate-has-no-mobilizer,is-not-must-be-loop,far-body-not-in-tree", "%s:%d" % (f.file, q["line"]), "")
     g = P.fn(G + "::growTree")
     calls = [(b, e) for b, _, e in g.calls(G + "::addMobilizerForJoint")]
+    if not calls:
+        # `auto mobilizeAndRecord = [..](int j) { addMobilizerForJoint(j); .. }`: the lambda's calls are the attach sites, with its parameter as the joint
+        for L in [x for x in P.all_fns() if x.d.get("parent") == g.id and x.blocks and len(x.d.get("params", [])) == 1]:
+            inner = [e for _, _, e in L.calls(G + "::addMobilizerForJoint")]
+            if len(inner) == 1 and _strip(call_args(inner[0])[0]) == ["var", L.d["params"][0][0]]:
+                for b, _, e in g.calls():
+                    if e.get("fid") == L.id:
+                        a = [z for z in (e["x"][3:] if e["x"][:2] == ["opc", "()"] else call_args(e))]
+                        calls.append((b, dict(e, x=["call", G + "::addMobilizerForJoint", ["this"], a[-1:]])))
     main = [(b, e) for b, e in calls if _strip(call_args(e)[0])[:1] == ["var"] and not any(str(d.get("init"))[:60].find("findHeaviest") >= 0 for _, _, d in g.events(lambda q, v=_strip(call_args(e)[0])[1]: q["k"] == "decl" and q["var"] == v))]
     ext = [(b, e) for b, e in calls if (b, e) not in main]
     chk.shape(len(main) == 1 and len(ext) >= 2, "ELIGIBLE", "growTree:attach-sites", g.loc, "%d in the main loop, %d in the massless-branch extension" % (len(main), len(ext)))
@@ -330,7 +381,7 @@ def fold(chk, P):
     for b in body:
         t = f.blocks[b].get("term")
         c = _strip(t.get("cond")) if t and t.get("cond") is not None else None
-        if isinstance(c, list) and len(c) == 4 and c[0] == "op" and c[1] in (">", ">=") and sx_find(c[2], lambda y: y[0] == "call" and str(y[1]).endswith("::size")) and _strip(c[3])[:1] == ["var"]:
+        if isinstance(c, list) and len(c) == 4 and c[0] == "op" and c[1] in (">", ">=") and sx_find(expand_locals(f, c[2]), lambda y: y[0] == "call" and str(y[1]).endswith("::size")) and _strip(c[3])[:1] == ["var"]:
             accs[_strip(c[3])[1]] = c[1]
     if not chk.shape(len(accs) == 1, "FOLD", "chooseNewBaseBody:accumulator", f.loc, "%s" % sorted(accs)):
         return
@@ -351,8 +402,9 @@ def fold(chk, P):
         t = f.blocks[b].get("term")
         c = t.get("cond") if t and t.get("cond") is not None else None
         for y in sx_find(c, lambda y: y[0] == "var"):
-            ds = [d for _, _, d in f.events(lambda q: q["k"] == "decl" and q["var"] == y[1])]
-            if len(ds) == 1 and "bool" in str(ds[0].get("ty", "")):
+            ds = [(db, d) for db, _, d in f.events(lambda q: q["k"] == "decl" and q["var"] == y[1])]
+            # (a sticky flag lives across iterations: declared outside the loop; a bool computed per candidate is data, not a flag)
+            if len(ds) == 1 and "bool" in str(ds[0][1].get("ty", "")) and ds[0][0] not in body:
                 flags.add(y[1])
     okflags = True
     for fl in flags:
